@@ -54,6 +54,22 @@ CHECKS = {
          "Every guarded entry point is called with every mismatching channel-count / slice-count / capacity combination of the grid on stamped operands; the call must panic and both operands, caller slices and the pool must be bit-identical afterwards.",
          "Panic observed through recover(); operand storage re-read through the verif hook; pool state observed through subsequent Gets.",
          "6/C15"),
+ "C06": ("exhaustive / boundary-dense enumeration in amplitude order with an order-and-levels oracle on the real conversions",
+         "All 121 fixed->fixed instantiations; every 8/16-bit source value in every tier and every 32-bit source value in the thorough tier (9.4e10 conversions), sampled for 64-bit sources; monotonicity along the ascending enumeration plus the three reference levels.",
+         "Amplitude arithmetic in int64 (amplitudes of all supported formats fit); 1-channel buffers of 16384 samples per call.",
+         "6/C06"),
+ "C07": ("exhaustive / boundary-dense enumeration with exact integer oracle (floor/ceil, identity, widening round trip through two real calls)",
+         "Same enumeration as C06; narrowing results must be floor or ceil of a/2^d, equal depth must be the identity on amplitudes, and every widening pair composed with the library's matching narrowing conversion must return the original code.",
+         "Amplitude arithmetic in int64; the round trip uses the library's own inverse instantiation.",
+         "6/C07"),
+ "C08": ("exhaustive float32 / boundary-dense float64 enumeration with exact 128-bit product oracle cross-checked against big.Rat",
+         "All 22 float->fixed instantiations; every non-NaN float32 bit pattern in the thorough tier (4.7e10 conversions), boundary-dense + seeded float64 lists; clipping, zero, linear-within-one-step and monotonicity are decided from the exact product.",
+         "Exact product from the float's integer mantissa/exponent; the fast oracle is cross-checked against big.Rat on >=10^4 inputs per run; NaN excluded.",
+         "6/C08"),
+ "C09": ("exhaustive / boundary-dense enumeration with exact-rational accuracy oracle and real round trips; known finding suppressed by exact input set",
+         "All 22 fixed->float instantiations; range, reference levels, (strict) monotonicity, accuracy within one step + float rounding, and the round trip through the real inverse conversion, complete for 8/16-bit sources and (thorough) 32-bit sources. The UnsignedAsFloat divisor defect is a recorded known finding keyed by instantiation, kind and input set; anything else is a violation.",
+         "Accuracy decided in float64 outside a 2^-20 guard band and in big.Rat inside it and for 64-bit sources.",
+         "6/C09"),
 }
 PENDING = {}
 
